@@ -81,6 +81,9 @@ func cmdFunc(args []string) {
 			if key != pat && !strings.HasPrefix(key, pat) {
 				continue
 			}
+			if key != pat && kv.IsGenericShell(fn) {
+				continue
+			}
 			n++
 			res := e.VerifyFunc(fn, fc, *smoke)
 			if res.Error != "" {
